@@ -3,7 +3,8 @@
 import json, os, subprocess, sys
 ROOT = os.path.dirname(os.path.dirname(os.path.abspath(__file__)))
 sys.path.insert(0, ROOT)
-from harness.registry import CHECKS, NOT_APPLICABLE, NOT_YET, GUARD
+from harness.registry import load_checks, NOT_APPLICABLE, NOT_YET, GUARD
+CHECKS = load_checks()
 
 props = [json.loads(l)["id"] for l in open(os.path.join(ROOT, "properties.jsonl"))]
 hooks_commits = []
